@@ -1017,7 +1017,7 @@ struct XWorld {
             roots[r] = {d, d == 0 ? QPDFObjectHandle::parse(text) : QPDFObjectHandle::parse(q, text)};
             return "ok"; }
         case 'H':
-            if (std::stoi(f.at(2)) / 10 != d || !eval(d, f.at(3), h, false, cross)) return "skip";
+            if (std::stoi(f.at(2)) / 10 != d || d >= ndocs || !eval(d, f.at(3), h, false, cross)) return "skip";
             roots[std::stoi(f.at(2))] = {d, h};
             return "ok";
         case 'M':
